@@ -91,7 +91,8 @@ Fold(seq) == LET RECURSIVE F(_, _)
                  F(i, a) == IF i > Len(seq) THEN a ELSE F(i + 1, 7 * a + seq[i])
              IN F(1, 0)
 \* a stop request (the consumer's, or the internal one of a take_until) may cut the sequence at a stop_immediately
-CutPossible == Has("stop_imm") /\ (stopped \/ Has("take_until"))
+\* ... or at a type_erase, whose stop callback completes next() with done if it wins the race against the source's completion
+CutPossible == (Has("stop_imm") \/ Has("type_erase")) /\ (stopped \/ Has("take_until"))
 AllClean == \A s \in SrcNodes : (nexted[s] => ph[s] = "cleaned") /\ ph[s] \in {"fresh", "cleaned"}
 NothingDropped == /\ elems = Ex(pipe.root)
                   /\ \A q \in FnNodes \ InTrig : calls[q] = Len(Ex(PKid(q)))
